@@ -21,6 +21,7 @@ Known finding D4 (absolute FILE-NAME escapes the relativity root): the same mode
 predictions differ AND the observation equals the prediction of the deviation.
 """
 import json
+import zlib
 import os
 import random
 from concurrent.futures import ThreadPoolExecutor
@@ -88,8 +89,14 @@ def tag(loc):
     return loc['root'] + ''.join('-' + c for c in loc['comps'])
 
 
-def render_expr(x, abs_dir, leaf=None):
-    """leaf: with two uses of one path expression, use k designates the entry uk below it"""
+BUILTIN = {'home': 'EXACTLY_HOME', 'acthome': 'EXACTLY_ACT_HOME', 'act': 'EXACTLY_ACT', 'tmp': 'EXACTLY_TMP',
+           'result': 'EXACTLY_RESULT'}
+
+
+def render_expr(x, abs_dir, leaf=None, spelling=0):
+    """leaf: with two uses of one path expression, use k designates the entry uk below it
+    spelling: 1, 2 - the relativity root written as the builtin path symbol that stands for it (-rel EXACTLY_X /
+    @[EXACTLY_X]@/...) instead of the option: the same directory"""
     names = []
     for p in x['parts']:
         names.append({'S': '@[S]@', 'T': '@[T]@', 'AS': '@[A]@', 'AL': abs_dir}.get(p, p))
@@ -99,6 +106,10 @@ def render_expr(x, abs_dir, leaf=None):
     rel = x['rel']
     if rel in RELOPT and not names and x.get('role') == 'copydst':
         return RELOPT[rel]          # the relativity option alone: that root directory itself
+    if rel in BUILTIN and spelling == 1:
+        return '-rel %s %s' % (BUILTIN[rel], fname)
+    if rel in BUILTIN and spelling == 2 and names and not str(names[0]).startswith('/'):
+        return '@[%s]@/%s' % (BUILTIN[rel], fname)
     if rel in RELOPT:
         return RELOPT[rel] + ' ' + fname
     if rel == 'default':
@@ -216,6 +227,9 @@ def concretize(task, cd):
     dirs = {'here': cd.home, 'home': os.path.join(cd.home, 'hm'), 'acthome': os.path.join(cd.home, 'ah'),
             'abs': abs_dir}
     pa = pass_alts(task)
+    # where the case is accepted whichever way: the root may be written as the builtin symbol that stands for it
+    only_pass = all(a['outcome'] == 'PASS' for a in task['alts'] + task['dalts'])
+    spelling = zlib.crc32(json.dumps(task['prog'], sort_keys=True).encode()) % 3 if only_pass and not task.get('d4') else 0
     two = task['cdpos'] == 3
     n_use = 0
     setup = ['$ sh %s/populate.sh' % cd.home, 'def string S = d', 'def string T = e', 'def string A = %s' % abs_dir]
@@ -223,7 +237,7 @@ def concretize(task, cd):
     for ins in task['prog']:
         if ins['op'] == 'use':
             n_use += 1
-        p = render_expr(ins, abs_dir, leaf='u%d' % n_use if two and ins['op'] == 'use' else None)
+        p = render_expr(ins, abs_dir, leaf='u%d' % n_use if two and ins['op'] == 'use' else None, spelling=spelling)
         if ins['op'] == 'def':
             body.append('def path P%d = %s' % (sum(1 for l in body if l.startswith('def path P')) + 1, p))
         elif ins['op'] == 'cd':
